@@ -22,7 +22,8 @@ RULE = ("structures (several chains incl. lower-case/digit ids, insertion codes,
         "option-free run, determinants from both listed and unlisted partners (or, for the all-residues clause, the "
         "structure has >= 2 groups with determinants); distinct by hash of (input, list).")
 ASSUMPTIONS = [
-    "blank chain identifiers are outside the domain (the option syntax has no documented spelling for them)",
+    "a blank chain identifier is spelled '_' in the list (the spelling the program itself prints in every label and "
+    "accepts on the unchanged tree) and ' ' after -c; half of the cases avoid blank chains altogether",
     "residue pairs that differ only in insertion code are covered for the census clause; numeric clauses on such "
     "structures inherit known finding F5 only through C06, not here (the comparison is within one labelling)",
 ]
@@ -31,6 +32,7 @@ ASSUMPTIONS = [
 def residue_ids(entries):
     out = []
     for (m, c, n, i, t), ats in pdbio.residues(entries):
+        c = c if c.strip() else "_"
         if (c, n, i) not in out and t.strip() not in gen.IGNORABLE:
             out.append((c, n, i))
     return out
@@ -49,7 +51,7 @@ def check_case(case):
     phantoms = [tuple(x) for x in case.get("phantoms", [])]
     copt = []
     for c in case.get("chains") or []:
-        copt += ["-c", c]
+        copt += ["-c", " " if c == "_" else c]
     r0 = observe.run(text, copt, name="a", keep_mol=True)
     if r0["error"]:
         return [], {"labels": ["base-error"]}
@@ -267,9 +269,11 @@ def run_shard(ctx):
     def cases(draw):
         s = draw(gen.structures(max_res=36 if quick else 70, distinct_chain_ids=False))
         entries = [e.copy() if isinstance(e, Atom) else e for e in s.entries]
-        for a in pdbio.atoms_of(entries):
-            if a.chain == " ":
-                a.chain = "Q"
+        if draw(st.booleans()):
+            for a in pdbio.atoms_of(entries):
+                if a.chain == " ":
+                    a.chain = "Q"
+        # a blank chain identifier is spelled "_" in the list - the way the program prints it in every label
         ids = residue_ids(entries)
         mode = draw(st.sampled_from(["subset", "subset", "subset", "single", "all", "ionizable"]))
         if mode == "all":
@@ -280,7 +284,7 @@ def run_shard(ctx):
             ion = []
             for (m, c, n, i, t), ats in pdbio.residues(entries):
                 if t in gen.IONIZABLE and draw(st.booleans()):
-                    ion.append((c, n, i))
+                    ion.append((c if c.strip() else "_", n, i))
             listed = ion or [ids[0]]
         else:
             listed = [r for r in ids if draw(st.booleans())] or [ids[0]]
